@@ -20,6 +20,8 @@ impl Flock {
             .create(true)
             .open(lock_path)?;
 
+        #[cfg(feature = "verif")]
+        crate::verif::sched::point("flock.try", &|| true);
         match crate::sys::unix::try_lock_exclusive(&lock_fd) {
             Ok(_) => Ok(Self { lock_fd }),
             Err(e) => {
@@ -31,6 +33,8 @@ impl Flock {
 
 impl Drop for Flock {
     fn drop(&mut self) {
+        #[cfg(feature = "verif")]
+        crate::verif::sched::point("flock.unlock", &|| true);
         if let Err(e) = crate::sys::unix::unlock(&self.lock_fd) {
             eprintln!("Failed to unlock directory lock: {e}");
         }
